@@ -1,13 +1,124 @@
 //! Verification hook (compiled only with `--cfg quinn_rs_quinn_verif`).
+//!
+//! Component `mtud`: drives the real [`MtuDiscovery`] (with its `EnabledMtuDiscovery`,
+//! `SearchState` and `BlackHoleDetector`) through its `pub(crate)`/`pub(super)` methods only.
+//!
+//! Times are integer microseconds relative to one `Instant` taken once per case.
+//! Every observation is `[ret, current_mtu(), in_flight_mtu_probe() or -1]`.
+//!
+//! ops (all sizes are `u16`, packet numbers `u64`):
+//!   [0, initial_mtu, min_mtu, peer_max|-1, enabled, upper_bound, interval_us, cooldown_us, minimum_change]
+//!        `MtuDiscovery::new(..)` if `enabled != 0` else `MtuDiscovery::disabled(initial, min)`;
+//!        must be the first op of a case (any other first op yields `[-2]` for the whole case) -> ret 0
+//!   [1, current_mtu, min_mtu]         reset                                   -> ret 0
+//!   [2, v]                            on_peer_max_udp_payload_size_received   -> ret 0
+//!   [3, now_us, next_pn]              poll_transmit                           -> ret probe size | -1
+//!   [4, space(0 Initial,1 Handshake,2 Data), pn, len]   on_acked              -> ret 0/1
+//!   [5]                               on_probe_lost                           -> ret 0
+//!   [6, pn, len]                      on_non_probe_lost                       -> ret 0
+//!   [7, now_us]                       black_hole_detected                     -> ret 0/1
+//!   anything else                                                             -> [-1]
 #![allow(missing_docs, dead_code, unused_imports, unreachable_pub, clippy::all)]
 use super::{Ops, Outs};
+use crate::connection::mtud::MtuDiscovery;
+use crate::packet::SpaceId;
+use crate::{Duration, Instant, MtuDiscoveryConfig};
+
+fn obs(ret: i128, m: &MtuDiscovery) -> Vec<i128> {
+    vec![
+        ret,
+        m.current_mtu() as i128,
+        m.in_flight_mtu_probe().map_or(-1, |x| x as i128),
+    ]
+}
+
+fn mtud(ops: &Ops) -> Outs {
+    let base = Instant::now();
+    let at = |t: i128| base + Duration::from_micros(t as u64);
+    let mut out = Outs::new();
+    let Some(first) = ops.first() else {
+        return out;
+    };
+    if first.len() != 9 || first[0] != 0 {
+        return ops.iter().map(|_| vec![-2]).collect();
+    }
+    let mut m = if first[4] != 0 {
+        let config = MtuDiscoveryConfig {
+            interval: Duration::from_micros(first[6] as u64),
+            upper_bound: first[5] as u16,
+            minimum_change: first[8] as u16,
+            black_hole_cooldown: Duration::from_micros(first[7] as u64),
+        };
+        let peer = if first[3] < 0 {
+            None
+        } else {
+            Some(first[3] as u16)
+        };
+        MtuDiscovery::new(first[1] as u16, first[2] as u16, peer, config)
+    } else {
+        MtuDiscovery::disabled(first[1] as u16, first[2] as u16)
+    };
+    out.push(obs(0, &m));
+    for op in &ops[1..] {
+        let o = match (op[0], op.len()) {
+            (1, 3) => {
+                m.reset(op[1] as u16, op[2] as u16);
+                obs(0, &m)
+            }
+            (2, 2) => {
+                m.on_peer_max_udp_payload_size_received(op[1] as u16);
+                obs(0, &m)
+            }
+            (3, 3) => {
+                let r = m.poll_transmit(at(op[1]), op[2] as u64);
+                obs(r.map_or(-1, |x| x as i128), &m)
+            }
+            (4, 4) => {
+                let space = match op[1] {
+                    0 => SpaceId::Initial,
+                    1 => SpaceId::Handshake,
+                    _ => SpaceId::Data,
+                };
+                let r = m.on_acked(space, op[2] as u64, op[3] as u16);
+                obs(r as i128, &m)
+            }
+            (5, 1) => {
+                m.on_probe_lost();
+                obs(0, &m)
+            }
+            (6, 3) => {
+                m.on_non_probe_lost(op[1] as u64, op[2] as u16);
+                obs(0, &m)
+            }
+            (7, 2) => {
+                let r = m.black_hole_detected(at(op[1]));
+                obs(r as i128, &m)
+            }
+            _ => vec![-1],
+        };
+        out.push(o);
+    }
+    out
+}
 
 /// Interpret `ops` for component `comp`; `None` if `comp` is not served by this module.
-pub(crate) fn run(_comp: &str, _ops: &Ops) -> Option<Outs> {
-    None
+pub(crate) fn run(comp: &str, ops: &Ops) -> Option<Outs> {
+    match comp {
+        "mtud" => Some(mtud(ops)),
+        _ => None,
+    }
 }
 
 /// Constants of this component for `coq/gen/Constants.v`.
 pub(crate) fn constants() -> Vec<(&'static str, i128)> {
-    vec![]
+    vec![
+        (
+            "MAX_PROBE_RETRANSMITS",
+            crate::connection::mtud::verif_consts().0 as i128,
+        ),
+        (
+            "BLACK_HOLE_THRESHOLD",
+            crate::connection::mtud::verif_consts().1 as i128,
+        ),
+    ]
 }
